@@ -417,6 +417,50 @@ func (gi *gateInterp) run(p *gatePath, list []ast.Stmt, k func(*gatePath)) {
 		case *ast.IfStmt:
 			gi.run(q2, []ast.Stmt{e}, next)
 		}
+	case *ast.SwitchStmt:
+		// a tagless switch is an if / else-if chain: rewrite and interpret that
+		if x.Tag == nil && x.Init == nil {
+			var chain *ast.IfStmt
+			var last *ast.IfStmt
+			var deflt *ast.BlockStmt
+			ok := true
+			for _, cs := range x.Body.List {
+				cc, isCase := cs.(*ast.CaseClause)
+				if !isCase {
+					ok = false
+					break
+				}
+				for _, s2 := range cc.Body {
+					if _, isFall := s2.(*ast.BranchStmt); isFall {
+						ok = false // fallthrough / break: not handled
+					}
+				}
+				if cc.List == nil {
+					deflt = &ast.BlockStmt{List: cc.Body}
+					continue
+				}
+				var cond ast.Expr = cc.List[0]
+				for _, e := range cc.List[1:] {
+					cond = &ast.BinaryExpr{X: cond, Op: token.LOR, Y: e}
+				}
+				n := &ast.IfStmt{Cond: cond, Body: &ast.BlockStmt{List: cc.Body}}
+				if chain == nil {
+					chain = n
+				} else {
+					last.Else = n
+				}
+				last = n
+			}
+			if ok && chain != nil {
+				if deflt != nil {
+					last.Else = deflt
+				}
+				gi.run(p, append([]ast.Stmt{chain}, rest...), k)
+				return
+			}
+		}
+		p.bad = "unsupported switch statement"
+		next(p)
 	default:
 		p.bad = fmt.Sprintf("unsupported statement %T", st)
 		next(p)
